@@ -148,7 +148,7 @@ func (g *Gen) specBool(env *Env, e *Expr) string {
 			for _, s := range side {
 				if !seen[s] {
 					seen[s] = true
-					g.assumeRaw(s)
+					g.assumeRange(s, false)
 				}
 			}
 		}()
